@@ -398,6 +398,22 @@ func (s cleanScn) execute(root string, mode Mode, count int, record bool) error 
 	return nil
 }
 
+// liveIDs are the entry ids that the calls of the scenario's tests address in the multi-entry file at path.
+func (s cleanScn) liveIDs(path string) map[string]bool {
+	live := map[string]bool{}
+	for _, st := range s.Tests {
+		n := 0
+		for _, c := range st.Calls {
+			if c.Call.standalone() || c.Call.Cfg < 0 || c.Call.Cfg >= len(s.Cfgs) || s.Cfgs[c.Call.Cfg].multiPath() != path {
+				continue
+			}
+			n++
+			live[entryID(st.Name, n)] = true
+		}
+	}
+	return live
+}
+
 // prepare builds the pre-existing directory content: recording run + stale entries + extra items.
 func (s cleanScn) prepare(root string) error {
 	if err := s.execute(root, Mode{}, 1, true); err != nil {
@@ -413,8 +429,11 @@ func (s cleanScn) prepare(root string) error {
 		if err != nil {
 			return fmt.Errorf("preparation: recorded file not well formed: %v", err)
 		}
+		live := s.liveIDs(s.Cfgs[ci].multiPath())
 		for _, e := range list {
-			if findEntry(es, string(e.ID)) >= 0 {
+			// an id that a call of the program addresses in this file is not stale, whether the recording stored it or the
+			// run is going to add it (names of the pool are related: `TestAB` + sub test `9` is the pool's `TestAB/9`)
+			if findEntry(es, string(e.ID)) >= 0 || live[string(e.ID)] {
 				continue
 			}
 			pos := 0
